@@ -11,6 +11,9 @@ package standard
 //@   // the subscription information stored for an epoch holds non-nil entries with a duty (what the beacon committee
 //@   // subscriber returns, see its Subscribe contract); assumed of every state in which a method is entered
 //@   valid forall e phase0.Epoch, sl phase0.Slot, ci phase0.CommitteeIndex :: in(self.subscriptionInfos, e) && in(self.subscriptionInfos[e], sl) && in(self.subscriptionInfos[e][sl], ci) ==> self.subscriptionInfos[e][sl][ci] != nil && self.subscriptionInfos[e][sl][ci].Duty != nil
+//@   // sync committee duties are only handled with the sync committee services wired up (main.go passes all of them
+//@   // or none) and a non-zero period length (altairDetails)
+//@   valid self.handlingAltair ==> self.syncCommitteeDutiesProvider != nil && self.syncCommitteesSubscriber != nil && self.syncCommitteeMessenger != nil && self.syncCommitteeAggregator != nil && self.epochsPerSyncCommitteePeriod > 0
 //@   // established by New (parseAndCheckParameters rejects nil for these; the maps are made there)
 //@   valid self.chainTimeService != nil && self.scheduler != nil && self.attester != nil && self.validatingAccountsProvider != nil && self.attesterDutiesProvider != nil && self.proposerDutiesProvider != nil && self.beaconBlockProposer != nil && self.attestationAggregator != nil && self.beaconCommitteeSubscriber != nil && self.accountsRefresher != nil && self.blockToSlotSetter != nil && self.pendingAttestations != nil && self.subscriptionInfos != nil
 //@   confined activeValidators: after construction read and written only by the accounts refresher's periodic job (its run-time function and job function run on that job's goroutine and never overlap); not covered: New writes it once more after the tickers were started, a start-up window in which the refresher's first run-time computation may read it
@@ -132,3 +135,50 @@ package standard
 //@   ensures result0 ==> reportedAltairErr() == nil && result1 == reportedAltairEpoch()
 //@   ensures result0 <==> !isnil(syncCommitteeAggregator) && epochsPerSyncCommitteePeriod != 0 && reportedAltairErr() == nil
 //@   modifies nothing
+//@
+//@ // ---- C15: a sync committee member gets a message job for every slot of its window ----
+//@ // the window of a period: from the slot before the first slot of its first epoch still ahead (or from now, if
+//@ // later) to the slot before the period's last slot
+//@ spec func nowEpoch() phase0.Epoch
+//@ spec func dec(x phase0.Slot) phase0.Slot = x > 0 ? x - 1 : 0
+//@ spec func periodFirstEpoch(altair phase0.Epoch, perPeriod uint64, period uint64) phase0.Epoch = max(u64(period * perPeriod), altair)
+//@ spec func windowStart(altair phase0.Epoch, perPeriod uint64, period uint64) phase0.Slot = max(dec(firstSlotOf(max(periodFirstEpoch(altair, perPeriod, period), nowEpoch()))), nowSlot())
+//@ spec func windowEnd(altair phase0.Epoch, perPeriod uint64, period uint64) phase0.Slot = u64(firstSlotOf(u64(u64(periodFirstEpoch(altair, perPeriod, period + 1) - 1) + 1)) - 2)
+//@
+//@ func (*Service).firstEpochOfSyncPeriod
+//@   ensures result == periodFirstEpoch(s.altairForkEpoch, s.epochsPerSyncCommitteePeriod, period)
+//@   modifies nothing
+//@
+//@ func (*Service).scheduleSyncCommitteeMessages
+//@   requires nolocks() && s.handlingAltair
+//@   // the clock does not tick while the jobs are set up
+//@   assumes call CurrentEpoch (e): e == nowEpoch()
+//@   assumes call CurrentSlot (cs): cs == nowSlot()
+//@   // (the first slot of an epoch is a multiple of the slots per epoch, of which there is more than one)
+//@   assumes call FirstSlotOfEpoch (fs): fs == firstSlotOf(arg0) && fs != 1
+//@   assumes call SyncCommitteeDuties#1 (resp, err): err == nil ==> resp != nil && (forall k int :: 0 <= k && k < len(resp.Data) ==> resp.Data[k] != nil)
+//@   // a job is set up only for a slot of the window, for the members the node named
+//@   at call go: assert arg0 != nil && arg0.slot == slot && arg0.contributionIndices == messageIndices
+//@   at call go: assert windowStart(s.altairForkEpoch, s.epochsPerSyncCommitteePeriod, u64(epoch) / s.epochsPerSyncCommitteePeriod) <= slot && slot <= windowEnd(s.altairForkEpoch, s.epochsPerSyncCommitteePeriod, u64(epoch) / s.epochsPerSyncCommitteePeriod) && !(slot == nowSlot() && notCurrentSlot)
+//@   // exactly one per slot of the window (none for the current slot on a restart)
+//@   ghost cnt (Array Int Int) = empty
+//@   at call go: ghost cnt[slot] = cnt[slot] + 1
+//@   loop 1
+//@     invariant forall k int :: 0 <= k && k < len(duties) ==> duties[k] != nil
+//@     invariant forall sl int :: cnt[sl] == 0
+//@   loop 2
+//@     invariant firstSlot == windowStart(s.altairForkEpoch, s.epochsPerSyncCommitteePeriod, period) && lastSlot == windowEnd(s.altairForkEpoch, s.epochsPerSyncCommitteePeriod, period) && period == u64(epoch) / s.epochsPerSyncCommitteePeriod
+//@     invariant firstSlot <= slot && slot <= 18446744073709551615
+//@     invariant forall sl int {cnt[sl]} :: firstSlot <= sl && sl < slot && !(sl == nowSlot() && notCurrentSlot) ==> cnt[sl] == 1
+//@     invariant forall sl int {cnt[sl]} :: firstSlot <= sl && sl < slot && sl == nowSlot() && notCurrentSlot ==> cnt[sl] == 0
+//@     invariant forall sl int {cnt[sl]} :: sl < firstSlot || sl >= slot ==> cnt[sl] == 0
+//@   // every slot of the window was dealt with: the loop is only left at its end
+//@   ensures calls(SyncCommitteeAccountsForEpochByIndex) == 1 ==> !inloop(2)
+//@
+//@ // the goroutine of one slot: the preparation job runs one and a half slots before the slot starts
+//@ func (*Service).scheduleSyncCommitteeMessages$1
+//@   requires duty != nil && duty.accounts != nil && s.slotDuration >= 0
+//@   assumes call StartOfSlot (t): ns(t) == startOfSlotNs(arg0)
+//@   at call ScheduleJob#1: assert arg2 == sprintf("Prepare sync committee messages for slot %d", duty.slot)
+//@   at call ScheduleJob#1: assert ns(arg3) == startOfSlotNs(duty.slot) - (s.slotDuration * 6) / 4
+//@   ensures calls(ScheduleJob) == 1
